@@ -8,7 +8,7 @@ NATIVE_FUNCTIONS = [f"{G}:BaseGHE._simulate_detailed", f"{G}:GHE.simulate"]
 NATIVE_CASES = {"quick": 60, "thorough": 3000}
 NATIVE_LIMIT_S = {"quick": 45, "thorough": 1500}
 CASE_TIMEOUT = 200
-LEVEL = "proof"
+LEVEL = "other"
 
 
 def lemmas():
@@ -28,6 +28,6 @@ EXPLANATION = ("_simulate_detailed is proved, for load/time arrays of every leng
                "+ q_i/N R_b*/H - q_i/N/(2 m cp) (loop invariant over the symbolic step count; the dot product is tied to the spec sum by extensionality). GHE.simulate is proved to feed it "
                "q = 1000*load[2:], t = hour[2:] (hybrid) or q = -loads repeated over the horizon, t = 1..n (hourly) whatever self.times held before - the hourly obligations "
                "(equal lengths, increasing axis) failed on the pinned tree: defects D8 and D15, fixed. Unit handling kW->W, hours->seconds, field->per borehole is part of the formula.")
-LEVEL_TEXT = ("Deductive proof for all load sequences, time axes, g-functions, heights, counts and media that both time-step methods compute exactly the documented superposition; "
+LEVEL_TEXT = ("[level other because the sign corollary of the statement (rejection raises / extraction lowers the temperature) is not a consequence of the proved formula alone and is cross-checked at run time only] Deductive proof for all load sequences, time axes, g-functions, heights, counts and media that both time-step methods compute exactly the documented superposition; "
               "zero-load / scaling / ground-temperature-shift corollaries proved as induction steps or linear identities; sign corollary bounded.")
 LEVEL_NOTE = "Trusted: pyvc, z3, A-REAL, numpy model, sum extensionality axiom, A-DET for pygfunction/radial model objects."
